@@ -204,7 +204,7 @@ def run_property(pid, tier, seed, wall_budget=None, verbose=True):
     inflight = {}
     jid = 0
     slice_s = 6.0 if tier == "quick" else 15.0
-    xs_every = int(os.environ.get("VERIF_XSOLVER", "0" if tier == "quick" else "400"))
+    xs_every = int(os.environ.get("VERIF_XSOLVER", "3000" if tier == "quick" else "400"))
     xs_disagree = []
 
     def submit():
